@@ -58,6 +58,9 @@ def reduce_genexp(lib, ex, name, node, st):
         for (k0, c0, lenterm) in prev:
             if k0 != key and lenterm.eq(lst.len):
                 s2.assume(c + c0 <= lst.len)
+                if getattr(ex.ctx.con, "count_partition", False):
+                    # A-count: every listed worker is PROCESSING or BLOCKED (precondition), so the two counts add up
+                    s2.assume(c + c0 == lst.len)
         prev.append((key, c, lst.len))
         outs.append((Num(c), s2))
     return outs
@@ -271,16 +274,18 @@ def install(lib):
 
     # ---- Machine._count_worker_state
     def cws_post(c):
-        r = c.res
         cap = c.old.f["work_capacity"].t
-        return [Clause("counts-in-range", lambda c: z3.And(r.items[0].t >= 0, r.items[1].t >= 0,
-                                                           r.items[0].t + r.items[1].t <= cap), ("C17", "C08"))]
+        return [Clause("counts-in-range", lambda c: z3.And(c.res.items[0].t >= 0, c.res.items[1].t >= 0,
+                                                           c.res.items[0].t + c.res.items[1].t <= cap), ("C17", "C08")),
+                Clause("counts-add-up-to-the-live-workers", lambda c: c.res.items[0].t + c.res.items[1].t ==
+                       c.old.f["worker_thread_list"].len, ("C17",))]
     C["Machine"]["_count_worker_state"] = FnContract(
         "_count_worker_state", [], post=cws_post,
         excs=[ExcCase("AssertionError", lambda c: c.old.f["worker_thread_list"].len > c.old.f["work_capacity"].t,
                       "more-threads-than-capacity", unchanged=True, props=("C08",), may=True)],
         uses_inv=False, keeps_inv=False, result_kind=("tuple", [("num", "int"), ("num", "int")]), props=("C17", "C08"),
         pure=True)
+    C["Machine"]["_count_worker_state"].count_partition = True
 
     # ---- Machine.update_state_rep(current_time)
     def usr_pre(st, args):
